@@ -39,7 +39,11 @@ MANIFEST = {
             "written by SimpleITK. Exploration, not proof.",
     "note": "Trusted: SimpleITK (reader/writer and as the arbiter of what a format can represent: a configuration/grid whose "
             "SimpleITK write->read does not reproduce the model image is skipped and counted; likewise an upper-case file name "
-            "SimpleITK cannot use for a format only it implements), nibabel, the float64 grid model of vlib/ref.py. Tolerances: "
+            "SimpleITK cannot use for a format only it implements), nibabel, the float64 grid model of vlib/ref.py. Every read by "
+            "SimpleITK of bytes that deepali produced (its writers, meta_image_bytes, or sitk.WriteImage of an image returned by "
+            "sitk()) goes through one helper: a file SimpleITK refuses to open is a violation (sitk_cannot_read_*), wherever along a "
+            "chain it is opened, and so is a sitk() image SimpleITK refuses to write in a format that holds the model image; only "
+            "the harness' own model files are read unguarded (a failure there is a harness error). Tolerances: "
             "data bit-exact; deepali -> file -> deepali: spacing and direction (stored verbatim in float32) 2*eps32 for "
             "double-precision headers and 8*eps32 for the float32 NIfTI header (derivations next to K_ATTR_*), origin (recomputed "
             "from the float32 centre) 8*eps32 resp. 64*eps32 of the world scale; header of a natively written file read by "
@@ -237,15 +241,57 @@ def sitk_write_read(m, arr, path, compress):
     return back, ""
 
 
-def sitk_read(path, kind):
+def _sitk_error(e) -> str:
+    lines = [ln.strip() for ln in str(e).strip().splitlines() if ln.strip()]
+    return (lines[-1] if lines else type(e).__name__)[:200]
+
+
+def _nifti_header_hint(path) -> str:
+    """Diagnostic text only (never decides anything): the header fields ITK's NIfTI reader branches on, read with nibabel."""
+    if not any(path.lower().endswith(sfx) for sfx in NIFTI):
+        return ""
+    try:
+        import nibabel as nib
+
+        h = nib.load(path).header
+        return (f" [NIfTI header: intent_code={int(h['intent_code'])} datatype={int(h['datatype'])} dim={[int(v) for v in h['dim']]} "
+                f"qform_code={int(h['qform_code'])} sform_code={int(h['sform_code'])}]")
+    except Exception as e:   # nibabel is only asked for a hint here
+        return f" [nibabel cannot read it either: {type(e).__name__}]"
+
+
+def sitk_read(path, kind="sitk_cannot_read_deepali_file", written_by="deepali", what=""):
+    """The one place where SimpleITK opens a file that is not the harness' own.
+
+    `written_by` names who produced the bytes: "deepali" (a deepali writer, or sitk.WriteImage of an image that a deepali
+    sitk() conversion made) - then a file SimpleITK refuses is a violation of 'files written by the library are read
+    identically by SimpleITK' (Violation(kind)); "sitk" (sitk.WriteImage of the harness' model image, already verified by
+    sitk_write_read) - then the read is not guarded and a failure is a harness error."""
     import SimpleITK as sitk
 
+    if written_by != "deepali":
+        return sitk.ReadImage(path)
     if not os.path.exists(path):
-        raise Violation("file_not_written", f"{os.path.basename(path)} does not exist after write")
+        raise Violation("file_not_written", f"{what + ': ' if what else ''}{os.path.basename(path)} does not exist after write")
     try:
         return sitk.ReadImage(path)
     except RuntimeError as e:
-        raise Violation(kind, f"SimpleITK cannot read the file written by deepali: {str(e).strip().splitlines()[-1][:200]}")
+        raise Violation(kind, f"{what + ': ' if what else ''}SimpleITK cannot read the file written by deepali "
+                              f"({os.path.basename(path)}): {_sitk_error(e)}{_nifti_header_hint(path)}")
+
+
+def sitk_write_converted(simg, path, compress, what):
+    """sitk.WriteImage of an image that came out of a deepali conversion (Image.sitk(), FlowField.sitk()) to a format that
+    SimpleITK has just shown to hold the model image (sitk_write_read): a refusal is due to the converted image."""
+    import SimpleITK as sitk
+
+    try:
+        sitk.WriteImage(simg, path, bool(compress))
+    except RuntimeError as e:
+        raise Violation("sitk_cannot_write_converted_image",
+                        f"{what}: SimpleITK cannot write the image returned by sitk() ({simg.GetDimension()}-D, size {simg.GetSize()}, "
+                        f"{simg.GetNumberOfComponentsPerPixel()} components, {simg.GetPixelIDTypeAsString()}) as "
+                        f"{os.path.basename(path)}, although it writes the model image in this format: {_sitk_error(e)}")
 
 
 def grid_attrs(grid):
@@ -587,7 +633,7 @@ def run_deepali_write(case):
         if back.grid().align_corners() != bool(g["ac"]):
             raise Violation("readback_align_corners", f"Image.read(align_corners={g['ac']}) grid has {back.grid().align_corners()}")
         # (2) SimpleITK reads deepali's file: compared with the independent model
-        simg = sitk_read(path, "sitk_cannot_read_deepali_file")
+        simg = sitk_read(path, "sitk_cannot_read_deepali_file", what=what)
         bad, detail, r2 = sitk_mismatch(simg, m, arr)
         if bad is not None:
             raise Violation("sitk_reads_deepali_file_" + bad, f"{what}: {detail}")
@@ -673,7 +719,7 @@ def run_flow(case):
         if not torch.equal(flow.tensor(), torch.from_numpy(v)) or flow.axes() != _axes(a):
             raise Violation("write_modified_flow", "FlowField.write changed the flow field")
         what = f"FlowField({a}).write({suffix}, axes={case['store']}) D={D} {case['dtype']} compress={compress}"
-        simg = sitk_read(path, "sitk_cannot_read_deepali_file")
+        simg = sitk_read(path, "sitk_cannot_read_deepali_file", what=what)
         bad, detail, r0 = sitk_mismatch(simg, m, np.zeros_like(w))
         if bad is not None and bad != "pixels":
             raise Violation("flow_file_" + bad, f"{what}: {detail}")
@@ -760,7 +806,7 @@ def run_meta_bytes(case):
         with open(path, "wb") as f:
             f.write(blob)
         # the serialised bytes are a MetaImage file SimpleITK understands
-        simg = sitk_read(path, "sitk_cannot_read_meta_image_bytes")
+        simg = sitk_read(path, "sitk_cannot_read_meta_image_bytes", what=what)
         bad, detail, r = sitk_mismatch(simg, m, arr)
         if bad is not None:
             raise Violation("sitk_reads_meta_image_bytes_" + bad, f"{what}: {detail}")
@@ -1031,6 +1077,7 @@ def run_convert(case):
         else:
             sitk.WriteImage(model_image(m, arr), path, bool(compress))
         Ko, Ka = K_MODEL, K_MODEL          # first file against the model: as in the single-format facets
+        writer = case["first"]             # who wrote `path`: every later file of the chain comes from deepali
         for n, sfx in enumerate(chain[1:], 1):
             what = (f"{case['first']}-written {chain[0]}" + "".join(f" -> {c}" for c in chain[1:n + 1]) +
                     f" [{via}] D={case['D']} C={case['C']} {case['dtype']} compress={compress}")
@@ -1043,7 +1090,7 @@ def run_convert(case):
                 write_image(data, gr, pathlib.Path(out), compress=compress)
                 img = Image(data, gr)
             elif via == "from_sitk":
-                img = Image.from_sitk(sitk.ReadImage(path), align_corners=ac)
+                img = Image.from_sitk(sitk_read(path, "sitk_cannot_read_deepali_file", writer, what), align_corners=ac)
                 img.write(out, compress=compress)
             elif via == "sitk()":
                 img = Image.read(path, align_corners=ac)
@@ -1051,7 +1098,7 @@ def run_convert(case):
                 bad, detail, _ = sitk_mismatch(simg, m, arr, max(Ko, Ka))
                 if bad is not None:
                     raise Violation("read_then_sitk_" + bad, f"Image.read({chain[n - 1]}).sitk() of {what}: {detail}")
-                sitk.WriteImage(simg, out, bool(compress))
+                sitk_write_converted(simg, out, compress, what)
             elif via == "Grid.from_file":
                 gr = Grid.from_file(path, align_corners=ac)
                 img = Image(torch.from_numpy(arr.copy()), gr)
@@ -1072,7 +1119,7 @@ def run_convert(case):
             # ... and so is the file it was written to, for SimpleITK and for deepali
             ho, ha = hop_bounds(sfx)
             Ko, Ka = Ko + ho, Ka + ha
-            simg = sitk_read(out, "sitk_cannot_read_converted_file")
+            simg = sitk_read(out, "sitk_cannot_read_converted_file", what=what)
             bad, detail, r = sitk_mismatch(simg, m, arr, max(Ko, Ka))
             if bad is not None:
                 raise Violation("sitk_reads_converted_file_" + bad, f"{what}: {detail}")
@@ -1084,7 +1131,7 @@ def run_convert(case):
                 # this hop alone: the (reader-made) grid that deepali wrote against the grid it reads back, header precision
                 ratio = max(ratio, check_grid_vs_grid(back.grid(), img.grid(), m, "convert_hop", what, ho, ha))
                 ratio = max(ratio, check_header_vs_grid(simg, img.grid(), m, sfx, "converted_file", what))
-            path = out
+            path, writer = out, "deepali"
     labels = [f"{dispatch_of(a)}->{dispatch_of(b)}" for a, b in zip(chain, chain[1:])]
     labels += [f"first={case['first']}", f"via={via}", f"len={len(chain)}", f"D={case['D']}", f"C={case['C']}", case["dtype"], g["kind"]]
     return {"ratio": ratio, "nontrivial": image_nontrivial(dict(case, suffix=chain[0])), "labels": labels}
@@ -1127,8 +1174,8 @@ def run_convert_flow(case):
                 rd.write(out, compress=compress, **kw)
             else:
                 fimg = rd.sitk(**kw)
-                sitk.WriteImage(fimg, out, bool(compress))
-            simg = sitk_read(out, "sitk_cannot_read_converted_file")
+                sitk_write_converted(fimg, out, compress, what)
+            simg = sitk_read(out, "sitk_cannot_read_converted_file", what=what)
             bad, detail, r = sitk_mismatch(simg, m, np.zeros_like(w), K_MODEL + n * K_NIFTI)
             if bad is not None and bad != "pixels":
                 raise Violation("converted_flow_file_" + bad, f"{what}: {detail}")
@@ -1138,7 +1185,12 @@ def run_convert_flow(case):
             ratio = max(ratio, r, check_close(stored_arr, w_last, fwd, "converted_flow_file_vectors",
                                               f"{what}: vectors in the file (read by SimpleITK) vs model {stored} vectors"))
             if first_arr is None:
-                first_arr = sitk.GetArrayFromImage(sitk_read(path, "sitk_cannot_read_deepali_file"))
+                first_arr = sitk.GetArrayFromImage(sitk_read(path, "sitk_cannot_read_deepali_file", case["first"], what))
+            if stored_arr.shape != first_arr.shape or stored_arr.dtype != first_arr.dtype:
+                # only a deepali-written first file can differ from the model in shape/type (the model's own file was verified)
+                raise Violation("converted_flow_first_file_shape",
+                                f"{what}: SimpleITK reads the first file as {first_arr.dtype}{first_arr.shape}, the converted file "
+                                f"(equal to the model) as {stored_arr.dtype}{stored_arr.shape}")
             if stored_arr.tobytes() != first_arr.tobytes():
                 raise Violation("converted_flow_vectors_changed",
                                 f"{what}: {int((stored_arr != first_arr).sum())} of {stored_arr.size} vector components of the "
@@ -1302,12 +1354,12 @@ def run_layouts(case):
                 if bad is not None:
                     raise Violation("layout_sitk_" + bad, f"{what}: {detail}")
                 ratio = max(ratio, r)
-            sitk.WriteImage(simg, path, bool(compress))
+            sitk_write_converted(simg, path, compress, what)
         after = (tuple(data.shape), data.stride(), data.storage_offset(), data.requires_grad)
         if after != before or not np.array_equal(data.detach().numpy(), given):
             raise Violation("write_modified_image", f"{what}: the caller's tensor changed (shape/stride/offset/requires_grad "
                                                     f"{before} -> {after} or its values)")
-        simg = sitk_read(path, "sitk_cannot_read_deepali_file")
+        simg = sitk_read(path, "sitk_cannot_read_deepali_file", what=what)
         bad, detail, r = sitk_mismatch(simg, m, np.zeros_like(expect) if flow else expect)
         if bad is not None and not (flow and bad == "pixels"):
             raise Violation("layout_file_" + bad, f"{what}: {detail}")
@@ -1358,8 +1410,9 @@ def paths_enum(tier):
 
 
 def _lower_copy(src_dir: str, dst_dir: str, name: str) -> str:
-    for f in os.listdir(src_dir):
-        shutil.copyfile(os.path.join(src_dir, f), os.path.join(dst_dir, f.lower()))
+    for f in sorted(os.listdir(src_dir)):
+        if os.path.isfile(os.path.join(src_dir, f)):
+            shutil.copyfile(os.path.join(src_dir, f), os.path.join(dst_dir, f.lower()))
     return os.path.join(dst_dir, name.lower())
 
 
@@ -1410,7 +1463,7 @@ def run_paths(case):
             raise Violation("path_readback_align_corners", f"{what}: align_corners={ac} not applied by the reader")
         r = check_grid_vs_grid(back.grid(), grid, m, "path_readback", what, *hop_bounds(suffix))
         spath = _lower_copy(d, tmp.subdir("lower"), name) if through_copy else fpath
-        simg = sitk_read(spath, "sitk_cannot_read_deepali_file")
+        simg = sitk_read(spath, "sitk_cannot_read_deepali_file", what=what)
         bad, detail, r2 = sitk_mismatch(simg, m, arr)
         if bad is not None:
             raise Violation("sitk_reads_deepali_file_" + bad, f"{what}: {detail}")
